@@ -1793,7 +1793,8 @@ aiff_read_chanmap (SF_PRIVATE * psf, unsigned dword)
 
 		free (psf->channel_map) ;
 
-		if ((psf->channel_map = malloc (chanmap_size)) == NULL)
+		/* One entry per channel (unmapped ones stay SF_CHANNEL_MAP_INVALID) : that is what the channel map commands copy. */
+		if ((psf->channel_map = calloc (psf->sf.channels, sizeof (psf->channel_map [0]))) == NULL)
 			return SFE_MALLOC_FAILED ;
 
 		memcpy (psf->channel_map, map_info->channel_map, chanmap_size) ;
